@@ -1,3 +1,467 @@
-From Coq Require Import ZArith List Bool Lia.
+(* C18 — lemmas about Model/Signal.v *)
+From Coq Require Import ZArith List Bool Lia Arith.
 From Pymoto Require Import Base.Cmp Model.Signal.
 Import ListNotations.
+Local Open Scope nat_scope.
+Arguments getbuf : simpl never.
+Arguments rd : simpl never.
+Arguments hwrite : simpl never.
+
+(* ------------------------------------------------------------------ lists *)
+Lemma upd_length {A} (l : list A) i x : length (upd l i x) = length l.
+Proof. revert i; induction l as [|h t IH]; intros [|i]; cbn; auto. Qed.
+
+Lemma nth_upd_eq {A} (l : list A) i x d : i < length l -> nth i (upd l i x) d = x.
+Proof. revert i; induction l as [|h t IH]; intros [|i] Hi; cbn in *; try lia; auto. apply IH; lia. Qed.
+
+Lemma nth_upd_neq {A} (l : list A) i j x d : i <> j -> nth j (upd l i x) d = nth j l d.
+Proof.
+  revert i j; induction l as [|h t IH]; intros [|i] [|j] Hij; cbn; auto; try congruence.
+  all: try (apply IH; congruence).
+Qed.
+
+Lemma upd_oob {A} (l : list A) i x : length l <= i -> upd l i x = l.
+Proof. revert i; induction l as [|h t IH]; intros [|i] Hi; cbn in *; auto; try lia. f_equal. apply IH; lia. Qed.
+
+Lemma wr_list_length d ix vs : length (wr_list d ix vs) = length d.
+Proof.
+  revert d vs; induction ix as [|i ix IH]; intros d [|v vs]; cbn; auto.
+  rewrite IH. apply upd_length.
+Qed.
+
+Lemma wr_list_frame d ix vs k : ~ In k ix -> nth k (wr_list d ix vs) c0 = nth k d c0.
+Proof.
+  revert d vs; induction ix as [|i ix IH]; intros d [|v vs] Hk; cbn; auto.
+  rewrite IH by (intro; apply Hk; right; auto).
+  apply nth_upd_neq. intro; apply Hk; left; auto.
+Qed.
+
+Lemma wr_list_read d ix vs :
+  NoDup ix -> Forall (fun i => i < length d) ix -> length vs = length ix ->
+  map (fun i => nth i (wr_list d ix vs) c0) ix = vs.
+Proof.
+  revert d vs; induction ix as [|i ix IH]; intros d [|v vs] Hnd Hin Hlen; cbn in *; try discriminate; auto.
+  inversion Hnd as [|? ? Hni Hnd']; subst. inversion Hin as [|? ? Hi Hin']; subst.
+  f_equal.
+  - rewrite wr_list_frame by assumption. apply nth_upd_eq; assumption.
+  - apply IH; auto.
+    + eapply Forall_impl; [|exact Hin']. intros a Ha; cbn in Ha. rewrite upd_length; exact Ha.
+Qed.
+
+Lemma map2_length {A B D} (f : A -> B -> D) a b : length b = length a -> length (map2 f a b) = length a.
+Proof. revert b; induction a as [|x a IH]; intros [|y b] H; cbn in *; try discriminate; auto. Qed.
+
+Lemma nth_seq0 n j : j < n -> nth j (seq 0 n) 0 = j.
+Proof. intros H. rewrite seq_nth; lia. Qed.
+
+(* ------------------------------------------------------------------ heap *)
+Lemma getbuf_app_old h b r : r < length h -> getbuf (h ++ [b]) r = getbuf h r.
+Proof. intros H. unfold getbuf. apply app_nth1; exact H. Qed.
+
+Lemma getbuf_app_new h b : getbuf (h ++ [b]) (length h) = b.
+Proof. unfold getbuf. rewrite app_nth2 by lia. rewrite Nat.sub_diag. reflexivity. Qed.
+
+Lemma hwrite_length h r ix vs : length (hwrite h r ix vs) = length h.
+Proof. apply upd_length. Qed.
+
+Lemma getbuf_hwrite_other h r ix vs r' : r' <> r -> getbuf (hwrite h r ix vs) r' = getbuf h r'.
+Proof. intros H. unfold getbuf, hwrite. apply nth_upd_neq. congruence. Qed.
+
+Lemma getbuf_hwrite_same h r ix vs : r < length h ->
+  getbuf (hwrite h r ix vs) r = {| bdata := wr_list (bdata (getbuf h r)) ix vs; bcplx := bcplx (getbuf h r) |}.
+Proof. intros H. unfold getbuf at 1, hwrite. apply nth_upd_eq. exact H. Qed.
+
+Lemma hwrite_oob h r ix vs : length h <= r -> hwrite h r ix vs = h.
+Proof. intros H. apply upd_oob; exact H. Qed.
+
+Lemma hwrite_meta h r ix vs r' :
+  length (bdata (getbuf (hwrite h r ix vs) r')) = length (bdata (getbuf h r')) /\
+  bcplx (getbuf (hwrite h r ix vs) r') = bcplx (getbuf h r').
+Proof.
+  destruct (Nat.eq_dec r' r) as [->|Hne].
+  - destruct (Nat.lt_ge_cases r (length h)) as [Hlt|Hge].
+    + rewrite getbuf_hwrite_same by exact Hlt. cbn. rewrite wr_list_length. auto.
+    + rewrite hwrite_oob by exact Hge. auto.
+  - rewrite getbuf_hwrite_other by exact Hne. auto.
+Qed.
+
+Lemma rd_hwrite_other h r ix vs r' jx : r' <> r -> rd (hwrite h r ix vs) r' jx = rd h r' jx.
+Proof. intros H. unfold rd. rewrite getbuf_hwrite_other by exact H. reflexivity. Qed.
+
+Lemma rd_hwrite_same h r ix vs :
+  r < length h -> NoDup ix -> Forall (fun i => i < length (bdata (getbuf h r))) ix -> length vs = length ix ->
+  rd (hwrite h r ix vs) r ix = vs.
+Proof.
+  intros Hr Hnd Hin Hlen. unfold rd. rewrite getbuf_hwrite_same by exact Hr. cbn.
+  apply wr_list_read; assumption.
+Qed.
+
+Lemma nth_hwrite_frame h r ix vs k : ~ In k ix ->
+  nth k (bdata (getbuf (hwrite h r ix vs) r)) c0 = nth k (bdata (getbuf h r)) c0.
+Proof.
+  intros Hk. destruct (Nat.lt_ge_cases r (length h)) as [Hlt|Hge].
+  - rewrite getbuf_hwrite_same by exact Hlt. cbn. apply wr_list_frame; exact Hk.
+  - rewrite hwrite_oob by exact Hge. reflexivity.
+Qed.
+
+Lemma rd_hwrite_disjoint h r ix vs jx : (forall k, In k jx -> ~ In k ix) ->
+  rd (hwrite h r ix vs) r jx = rd h r jx.
+Proof.
+  intros H. unfold rd. apply map_ext_in. intros k Hk. apply nth_hwrite_frame. apply H; exact Hk.
+Qed.
+
+Lemma rd_app_old h b r ix : r < length h -> rd (h ++ [b]) r ix = rd h r ix.
+Proof. intros H. unfold rd. rewrite getbuf_app_old by exact H. reflexivity. Qed.
+
+Lemma rd_whole_new h d cx : rd (h ++ [{| bdata := d; bcplx := cx |}]) (length h) (whole (length d)) = d.
+Proof.
+  unfold rd. rewrite getbuf_app_new. cbn. unfold whole.
+  apply nth_ext with (d := c0) (d' := c0).
+  - rewrite map_length, seq_length. reflexivity.
+  - intros n Hn. rewrite map_length, seq_length in Hn.
+    rewrite (nth_indep _ c0 (nth 0 d c0)) by (rewrite map_length, seq_length; exact Hn).
+    rewrite (map_nth (fun i => nth i d c0) (seq 0 (length d)) 0 n).
+    rewrite nth_seq0 by exact Hn. reflexivity.
+Qed.
+
+(* ------------------------------------------------------------------ references *)
+Definition vref (v : val) : option nat := match v with VWin r _ _ => Some r | _ => None end.
+Definition root (w : world) (i : nat) : rootsig := nth i (roots w) root0.
+
+Definition heap_ext (h h' : list buf) : Prop := exists t, h' = h ++ t.
+Lemma heap_ext_refl h : heap_ext h h. Proof. exists []. symmetry; apply app_nil_r. Qed.
+Lemma heap_ext_trans a b c : heap_ext a b -> heap_ext b c -> heap_ext a c.
+Proof. intros [t ->] [u ->]. exists (t ++ u). symmetry; apply app_assoc. Qed.
+Lemma heap_ext_len h h' : heap_ext h h' -> length h <= length h'.
+Proof. intros [t ->]. rewrite app_length. lia. Qed.
+Lemma heap_ext_getbuf h h' r : heap_ext h h' -> r < length h -> getbuf h' r = getbuf h r.
+Proof. intros [t ->] H. unfold getbuf. apply app_nth1; exact H. Qed.
+
+(* ------------------------------------------------------------------ monad plumbing *)
+Lemma bind_inv {A B} (m : M A) (f : A -> M B) w w' r :
+  bind m f w = (w', r) ->
+  (exists w1 a, m w = (w1, Ok a) /\ f a w1 = (w', r)) \/ (exists e, m w = (w', Er e) /\ r = Er e).
+Proof.
+  unfold bind. destruct (m w) as [w1 [a|e]] eqn:E; intros H.
+  - left. exists w1, a. auto.
+  - right. exists e. inversion H; subst. auto.
+Qed.
+
+(* ------------------------------------------------------------------ getters only allocate *)
+Definition derived (n : nat) (v0 v : val) : Prop :=
+  forall r, vref v = Some r -> vref v0 = Some r \/ n <= r.
+
+Lemma getitem_alloc v s w w' r :
+  getitem v s w = (w', r) ->
+  roots w' = roots w /\ vars w' = vars w /\ heap_ext (heap w) (heap w') /\
+  (forall a, r = Ok a -> derived (length (heap w)) v a).
+Proof.
+  unfold getitem. destruct v as [|c cx np|r0 ix shp]; try (unfold fail; intros H; inversion H; subst; repeat split; auto using heap_ext_refl; intros a Ha; discriminate).
+  destruct (lookup_slc s shp) as [si|]; [|unfold fail; intros H; inversion H; subst; repeat split; auto using heap_ext_refl; intros a Ha; discriminate].
+  destruct (si_kind si).
+  - unfold ret. intros H; inversion H; subst. repeat split; auto using heap_ext_refl.
+    intros a Ha; inversion Ha; subst. intros r Hr; cbn in Hr. left. exact Hr.
+  - unfold bind, mread, mcplx, new_array, bind, halloc, ret. cbn. intros H; inversion H; subst. cbn.
+    repeat split; auto. { eexists; reflexivity. }
+    intros a Ha; inversion Ha; subst. intros r Hr; cbn in Hr. inversion Hr; subst. right. lia.
+  - unfold bind, mread, mcplx, ret. cbn. intros H; inversion H; subst.
+    repeat split; auto using heap_ext_refl. intros a Ha; inversion Ha; subst. intros r Hr; discriminate.
+  - unfold fail. intros H; inversion H; subst; repeat split; auto using heap_ext_refl; intros a Ha; discriminate.
+Qed.
+
+Lemma get_fld_alloc f i p : forall w w' r,
+  get_fld f i p w = (w', r) ->
+  roots w' = roots w /\ vars w' = vars w /\ heap_ext (heap w) (heap w') /\
+  (forall a, r = Ok a -> derived (length (heap w)) (f (root w i)) a).
+Proof.
+  induction p as [|s p IH]; intros w w' r H.
+  - cbn in H. unfold bind, get_root, ret in H. inversion H; subst.
+    repeat split; auto using heap_ext_refl. intros a Ha; inversion Ha; subst. intros r Hr. left. exact Hr.
+  - cbn in H. apply bind_inv in H as [(w1 & b & H1 & H2)|(e & H1 & ->)].
+    + apply IH in H1 as (Hr1 & Hv1 & He1 & Hd1). specialize (Hd1 b eq_refl).
+      destruct b as [|c cx np|r0 ix shp].
+      * unfold ret in H2; inversion H2; subst. repeat split; auto. intros a Ha; inversion Ha; subst. intros r Hr; discriminate.
+      * apply getitem_alloc in H2 as (Hr2 & Hv2 & He2 & Hd2).
+        repeat split; try congruence. { eapply heap_ext_trans; eauto. }
+        intros a Ha. intros r0 Hr0. destruct (Hd2 a Ha r0 Hr0) as [Hx|Hx]; [discriminate|].
+        right. apply heap_ext_len in He1. lia.
+      * apply getitem_alloc in H2 as (Hr2 & Hv2 & He2 & Hd2).
+        repeat split; try congruence. { eapply heap_ext_trans; eauto. }
+        intros a Ha. intros r1 Hr1'. destruct (Hd2 a Ha r1 Hr1') as [Hx|Hx].
+        -- destruct (Hd1 r1 Hx) as [Hy|Hy]; [left; exact Hy|right; exact Hy].
+        -- right. apply heap_ext_len in He1. lia.
+    + apply IH in H1 as (Hr1 & Hv1 & He1 & Hd1). repeat split; auto; try (intros a Ha; discriminate).
+Qed.
+
+(* ------------------------------------------------------------------ footprint logic for the sensitivity operations
+   n0 : heap size of the reference world; W : the old buffers that may be written; i : the root operated on.
+   A value is `vok` when its buffer (if any) is in W or was allocated after the reference world. *)
+Section Foot.
+  Variable n0 : nat.
+  Variable W : nat -> Prop.
+  Variable i : nat.
+
+  Definition vok (v : val) : Prop := forall r, vref v = Some r -> W r \/ n0 <= r.
+  Definition Iw (w : world) : Prop := n0 <= length (heap w) /\ vok (r_se (root w i)).
+
+  Record Rw (w w' : world) : Prop := {
+    rw_vars : vars w' = vars w;
+    rw_len : length (roots w') = length (roots w);
+    rw_other : forall j, j <> i -> root w' j = root w j;
+    rw_st : r_st (root w' i) = r_st (root w i);
+    rw_keep : r_keep (root w' i) = r_keep (root w i);
+    rw_heap : length (heap w) <= length (heap w');
+    rw_meta : forall r, r < length (heap w) ->
+       length (bdata (getbuf (heap w') r)) = length (bdata (getbuf (heap w) r)) /\
+       bcplx (getbuf (heap w') r) = bcplx (getbuf (heap w) r);
+    rw_frame : forall r, r < n0 -> ~ W r -> getbuf (heap w') r = getbuf (heap w) r
+  }.
+
+  Lemma Rw_refl w : Rw w w.
+  Proof. constructor; auto. Qed.
+
+  Lemma Rw_trans a b c : Rw a b -> Rw b c -> Rw a c.
+  Proof.
+    intros [v1 l1 o1 s1 k1 h1 m1 f1] [v2 l2 o2 s2 k2 h2 m2 f2]. constructor; try congruence; try lia.
+    - intros j Hj. rewrite o2, o1; auto.
+    - intros r Hr. destruct (m1 r Hr) as [A1 B1]. destruct (m2 r ltac:(lia)) as [A2 B2]. split; congruence.
+    - intros r Hr HW. rewrite f2, f1; auto.
+  Qed.
+
+  Definition hoare {A} (m : M A) (Q : A -> Prop) : Prop :=
+    forall w, Iw w -> forall w' r, m w = (w', r) -> Iw w' /\ Rw w w' /\ (forall a, r = Ok a -> Q a).
+
+  Lemma hoare_ret {A} (a : A) (Q : A -> Prop) : Q a -> hoare (ret a) Q.
+  Proof.
+    intros HQ w HI w' r H. unfold ret in H; inversion H; subst. split; [exact HI|split; [apply Rw_refl|]].
+    intros b Hb; inversion Hb; subst; exact HQ.
+  Qed.
+
+  Lemma hoare_fail {A} e (Q : A -> Prop) : hoare (fail e) Q.
+  Proof.
+    intros w HI w' r H. unfold fail in H; inversion H; subst. split; [exact HI|split; [apply Rw_refl|]].
+    intros b Hb; discriminate.
+  Qed.
+
+  Lemma hoare_bind {A B} (m : M A) (f : A -> M B) (Q : A -> Prop) (Q' : B -> Prop) :
+    hoare m Q -> (forall a, Q a -> hoare (f a) Q') -> hoare (bind m f) Q'.
+  Proof.
+    intros Hm Hf w HI w' r H. apply bind_inv in H as [(w1 & a & H1 & H2)|(e & H1 & ->)].
+    - destruct (Hm w HI _ _ H1) as (HI1 & HR1 & HQ1).
+      destruct (Hf a (HQ1 a eq_refl) w1 HI1 _ _ H2) as (HI2 & HR2 & HQ2).
+      split; [exact HI2|split; [eapply Rw_trans; eauto|exact HQ2]].
+    - destruct (Hm w HI _ _ H1) as (HI1 & HR1 & HQ1). split; [exact HI1|split; [exact HR1|]]. intros b Hb; discriminate.
+  Qed.
+
+  Lemma hoare_weaken {A} (m : M A) (Q Q' : A -> Prop) : hoare m Q -> (forall a, Q a -> Q' a) -> hoare m Q'.
+  Proof.
+    intros Hm HQ w HI w' r H. destruct (Hm w HI _ _ H) as (A1 & A2 & A3). split; [exact A1|split; [exact A2|]].
+    intros a Ha. apply HQ, A3, Ha.
+  Qed.
+
+  (* pure reads *)
+  Lemma hoare_pure {A} (g : world -> A) : hoare (fun w => (w, Ok (g w))) (fun _ => True).
+  Proof. intros w HI w' r H. inversion H; subst. split; [exact HI|split; [apply Rw_refl|auto]]. Qed.
+
+  Lemma hoare_mread r ix : hoare (mread r ix) (fun _ => True).
+  Proof. apply hoare_pure. Qed.
+  Lemma hoare_mcplx r : hoare (mcplx r) (fun _ => True).
+  Proof. apply hoare_pure. Qed.
+
+  Lemma hoare_get_root : hoare (get_root i) (fun rs => vok (r_se rs)).
+  Proof.
+    intros w HI w' r H. unfold get_root in H. inversion H; subst. split; [exact HI|split; [apply Rw_refl|]].
+    intros a Ha; inversion Ha; subst. apply HI.
+  Qed.
+
+  Lemma hoare_halloc d cx : hoare (halloc d cx) (fun r => n0 <= r).
+  Proof.
+    intros w [HI1 HI2] w' r H. unfold halloc in H. inversion H; subst; clear H. cbn.
+    split; [|split].
+    - split; cbn. { rewrite app_length; cbn; lia. } exact HI2.
+    - constructor; cbn; auto.
+      + rewrite app_length; lia.
+      + intros r Hr. unfold set_heap; cbn. rewrite getbuf_app_old by exact Hr. auto.
+      + intros r Hr _. unfold set_heap; cbn. apply getbuf_app_old. lia.
+    - intros a Ha; inversion Ha; subst. exact HI1.
+  Qed.
+
+  Lemma hoare_mwrite r ix vs : (W r \/ n0 <= r) -> hoare (mwrite r ix vs) (fun _ => True).
+  Proof.
+    intros Hr w [HI1 HI2] w' res H. unfold mwrite in H. inversion H; subst; clear H.
+    split; [|split]; auto.
+    - split; cbn. { rewrite hwrite_length; exact HI1. } exact HI2.
+    - constructor; cbn; auto.
+      + rewrite hwrite_length; lia.
+      + intros r' _. apply hwrite_meta.
+      + intros r' Hr' HW. apply getbuf_hwrite_other. intros ->. destruct Hr; [contradiction|lia].
+  Qed.
+
+  Lemma hoare_new_array d cx shp : hoare (new_array d cx shp) vok.
+  Proof.
+    unfold new_array. eapply hoare_bind; [apply hoare_halloc|]. intros r Hr. apply hoare_ret.
+    intros r' E; cbn in E; inversion E; subst. right; exact Hr.
+  Qed.
+
+  Lemma vok_none : vok VNone. Proof. intros r E; discriminate. Qed.
+  Lemma vok_scal c cx np : vok (VScal c cx np). Proof. intros r E; discriminate. Qed.
+  Hint Resolve vok_none vok_scal : core.
+
+  Lemma hoare_getitem v s : hoare (getitem v s) (fun a => vok v -> vok a).
+  Proof.
+    unfold getitem. destruct v as [|c cx np|r ix shp]; try apply hoare_fail.
+    destruct (lookup_slc s shp) as [si|]; [|apply hoare_fail].
+    destruct (si_kind si).
+    - apply hoare_ret. intros Hv r' E; cbn in E; inversion E; subst. apply Hv; reflexivity.
+    - eapply hoare_bind; [apply hoare_mread|]; intros d _. eapply hoare_bind; [apply hoare_mcplx|]; intros cx _.
+      eapply hoare_weaken; [apply hoare_new_array|]. auto.
+    - eapply hoare_bind; [apply hoare_mread|]; intros d _. eapply hoare_bind; [apply hoare_mcplx|]; intros cx _.
+      apply hoare_ret. auto.
+    - apply hoare_fail.
+  Qed.
+
+  Lemma hoare_assign r tix isscal shp x : (W r \/ n0 <= r) -> hoare (assign r tix isscal shp x) (fun _ => True).
+  Proof.
+    intros Hr. unfold assign. destruct x as [|c cx np|r' ix' shp'].
+    - eapply hoare_bind; [apply hoare_mcplx|]; intros tcx _. apply hoare_fail.
+    - eapply hoare_bind; [apply hoare_mcplx|]; intros tcx _.
+      destruct (cx && negb tcx); [apply hoare_fail|apply hoare_mwrite; exact Hr].
+    - eapply hoare_bind; [apply hoare_mread|]; intros d _. eapply hoare_bind; [apply hoare_mcplx|]; intros cx _.
+      eapply hoare_bind; [apply hoare_mcplx|]; intros tcx _.
+      destruct shp'.
+      + destruct (cx && negb tcx); [apply hoare_fail|apply hoare_mwrite; exact Hr].
+      + destruct isscal; [apply hoare_fail|].
+        destruct (negb (Zl_eqb (z :: shp') shp)); [apply hoare_fail|].
+        destruct (cx && negb tcx); [apply hoare_fail|apply hoare_mwrite; exact Hr].
+  Qed.
+
+  Lemma hoare_setitem v s x : vok v -> hoare (setitem v s x) (fun _ => True).
+  Proof.
+    intros Hv. unfold setitem. destruct v as [|c cx np|r ix shp]; try apply hoare_fail.
+    destruct (lookup_slc s shp) as [si|]; [|apply hoare_fail].
+    assert (Hr : W r \/ n0 <= r) by (apply Hv; reflexivity).
+    destruct (si_kind si); try apply hoare_fail; apply hoare_assign; exact Hr.
+  Qed.
+
+  Lemma hoare_mul0 v : hoare (mul0 v) vok.
+  Proof.
+    unfold mul0. destruct v as [|c cx np|r ix shp]; [apply hoare_fail|apply hoare_ret; auto|].
+    eapply hoare_bind; [apply hoare_mcplx|]; intros cx _.
+    destruct shp; [apply hoare_ret; auto|apply hoare_new_array].
+  Qed.
+
+  Lemma hoare_deepcopy v : hoare (deepcopy v) vok.
+  Proof.
+    unfold deepcopy. destruct v as [|c cx np|r ix shp]; try (apply hoare_ret; auto).
+    eapply hoare_bind; [apply hoare_mread|]; intros d _. eapply hoare_bind; [apply hoare_mcplx|]; intros cx _.
+    apply hoare_new_array.
+  Qed.
+
+  Lemma hoare_iadd t x : vok t -> hoare (iadd t x) vok.
+  Proof.
+    intros Ht. unfold iadd. destruct t as [|c cx np|r ix shp]; [apply hoare_fail| |].
+    - destruct x as [|c' cx' np'|r' ix' shp']; [apply hoare_fail|apply hoare_ret; auto|].
+      eapply hoare_bind; [apply hoare_mread|]; intros d _. eapply hoare_bind; [apply hoare_mcplx|]; intros cx0 _.
+      destruct shp'; [apply hoare_ret; auto|apply hoare_new_array].
+    - assert (Hr : W r \/ n0 <= r) by (apply Ht; reflexivity).
+      eapply hoare_bind; [apply hoare_mcplx|]; intros tcx _. eapply hoare_bind; [apply hoare_mread|]; intros cur _.
+      destruct x as [|c' cx' np'|r' ix' shp']; [apply hoare_fail| |].
+      + destruct (cx' && negb tcx); [apply hoare_fail|].
+        eapply hoare_bind; [apply hoare_mwrite; exact Hr|]; intros _ _. apply hoare_ret; exact Ht.
+      + eapply hoare_bind; [apply hoare_mread|]; intros d _. eapply hoare_bind; [apply hoare_mcplx|]; intros cx0 _.
+        destruct (cx0 && negb tcx); [apply hoare_fail|].
+        destruct shp'.
+        * eapply hoare_bind; [apply hoare_mwrite; exact Hr|]; intros _ _. apply hoare_ret; exact Ht.
+        * destruct (negb (Zl_eqb (z :: shp') shp)); [apply hoare_fail|].
+          eapply hoare_bind; [apply hoare_mwrite; exact Hr|]; intros _ _. apply hoare_ret; exact Ht.
+  Qed.
+
+  Lemma hoare_get_se p : hoare (get_se i p) vok.
+  Proof.
+    unfold get_se. induction p as [|s p IH]; cbn.
+    - eapply hoare_bind; [apply hoare_get_root|]. intros rs Hrs. apply hoare_ret; exact Hrs.
+    - eapply hoare_bind; [apply IH|]. intros b Hb.
+      destruct b; [apply hoare_ret; auto| |]; (eapply hoare_weaken; [apply hoare_getitem|]; auto).
+  Qed.
+
+  Lemma hoare_get_st p : hoare (get_st i p) (fun _ => True).
+  Proof.
+    unfold get_st. induction p as [|s p IH]; cbn.
+    - eapply hoare_bind; [apply hoare_get_root|]. intros rs _. apply hoare_ret; exact I.
+    - eapply hoare_bind; [apply IH|]. intros b _.
+      destruct b; [apply hoare_ret; auto| |]; (eapply hoare_weaken; [apply hoare_getitem|]; auto).
+  Qed.
+
+  Lemma hoare_put_se x : vok x ->
+    hoare (bind (get_root i) (fun rs => put_root i {| r_st := r_st rs; r_se := x; r_keep := r_keep rs |})) (fun _ => True).
+  Proof.
+    intros Hx w [HI1 HI2] w' r H. unfold bind, get_root, put_root in H. inversion H; subst; clear H.
+    fold (root w i). unfold Iw, root at 1. cbn.
+    destruct (Nat.lt_ge_cases i (length (roots w))) as [Hlt|Hge].
+    - split; [|split]; auto.
+      + split; [exact HI1|]. rewrite nth_upd_eq by exact Hlt. exact Hx.
+      + constructor; unfold root; cbn; auto.
+        * apply upd_length.
+        * intros j Hj. apply nth_upd_neq. congruence.
+        * rewrite nth_upd_eq by exact Hlt. reflexivity.
+        * rewrite nth_upd_eq by exact Hlt. reflexivity.
+    - rewrite upd_oob by exact Hge.
+      replace (set_roots w (roots w)) with w by (destruct w; reflexivity).
+      split; [split; [exact HI1|exact HI2]|split; [apply Rw_refl|auto]].
+  Qed.
+
+  Lemma hoare_set_se p : forall x, vok x -> hoare (set_se i p x) (fun _ => True).
+  Proof.
+    induction p as [|s p IH]; intros x Hx.
+    - cbn. apply hoare_put_se; exact Hx.
+    - cbn. eapply hoare_bind; [apply hoare_get_se|]. intros bs Hbs.
+      eapply hoare_bind with (Q := fun _ => True).
+      + destruct (is_none bs); [|apply hoare_ret; exact I].
+        destruct (is_none x); [apply hoare_ret; exact I|].
+        eapply hoare_bind; [apply hoare_get_st|]; intros b _.
+        eapply hoare_bind; [apply hoare_mul0|]; intros z Hz.
+        eapply hoare_bind; [apply IH; exact Hz|]; intros _ _. apply hoare_ret; exact I.
+      + intros cont _. destruct cont; [|apply hoare_ret; exact I].
+        eapply hoare_bind; [apply hoare_get_se|]. intros bs' Hbs'.
+        apply hoare_setitem; exact Hbs'.
+  Qed.
+
+  Lemma hoare_add_se p ds : hoare (add_se i p ds) (fun _ => True).
+  Proof.
+    unfold add_se. destruct (is_none ds); [apply hoare_ret; exact I|].
+    destruct p as [|s p'].
+    - eapply hoare_bind; [apply hoare_get_se|]. intros cur Hcur.
+      destruct (is_none cur).
+      + eapply hoare_bind; [apply hoare_deepcopy|]. intros c Hc. apply hoare_set_se; exact Hc.
+      + eapply hoare_bind; [apply hoare_iadd; exact Hcur|]. intros t Ht. apply hoare_set_se; exact Ht.
+    - eapply hoare_bind; [apply hoare_get_se|]. intros bs Hbs.
+      eapply hoare_bind with (Q := fun _ => True).
+      + destruct (is_none bs); [|apply hoare_ret; exact I].
+        eapply hoare_bind; [apply hoare_get_st|]; intros b _.
+        eapply hoare_bind; [apply hoare_mul0|]; intros z Hz. apply hoare_set_se; exact Hz.
+      + intros _ _. eapply hoare_bind; [apply hoare_get_se|]. intros _ _.
+        eapply hoare_bind; [apply hoare_get_se|]. intros cur Hcur.
+        eapply hoare_bind; [apply hoare_iadd; exact Hcur|]. intros t Ht. apply hoare_set_se; exact Ht.
+  Qed.
+
+  Lemma hoare_reset p k : hoare (reset i p k) (fun _ => True).
+  Proof.
+    unfold reset. destruct p as [|s p'].
+    - intros w HI w' r H.
+      assert (Hput : forall x, vok x ->
+                hoare (bind (get_root i) (fun rs => put_root i {| r_st := r_st rs; r_se := x; r_keep := r_keep rs |})) (fun _ => True))
+        by (intros; apply hoare_put_se; assumption).
+      unfold bind at 1 in H. unfold get_root in H. fold (root w i) in H.
+      destruct (r_se (root w i)) as [|c cx np|r0 ix shp] eqn:Ese.
+      + unfold ret in H; inversion H; subst. split; [exact HI|split; [apply Rw_refl|auto]].
+      + destruct (match k with Some b => b | None => r_keep (root w i) end).
+        * apply (Hput (VScal c0 cx np) (vok_scal _ _ _) w HI w' r). unfold bind, get_root. exact H.
+        * apply (Hput VNone vok_none w HI w' r). unfold bind, get_root. exact H.
+      + destruct (match k with Some b => b | None => r_keep (root w i) end).
+        * assert (Hr : W r0 \/ n0 <= r0) by (destruct HI as [_ HI2]; apply HI2; rewrite Ese; reflexivity).
+          exact (hoare_mwrite r0 ix _ Hr w HI w' r H).
+        * apply (Hput VNone vok_none w HI w' r). unfold bind, get_root. exact H.
+    - eapply hoare_bind; [apply hoare_get_se|]. intros cur _.
+      destruct (is_none cur); [apply hoare_ret; exact I|]. apply hoare_set_se. apply vok_none.
+  Qed.
+End Foot.
